@@ -161,7 +161,7 @@ def render_canonical(spec, cls_suffix="", _providers_only=False, _uid=None):
             elif shape == "instance_attr":
                 body += ["    def __init__(self):", f"        self.{fld} = None"]
         for cid, cb in spec["cbs"].items():
-            if cb["provider"] == prov:
+            if cb["provider"] == prov and not cb.get("inst"):
                 body += _cb_def(cid, cb)
         for nm, g in spec["guards"].items():
             if prov in g["providers"]:
@@ -175,6 +175,11 @@ def render_canonical(spec, cls_suffix="", _providers_only=False, _uid=None):
                      "    def __hash__(self):", "        return 7", "    _eqkey = 'same'"]
         L += body or ["    pass"]
         L.append("")
+    # per-instance hooks (assigned on the object, not defined on its class)
+    for cid, cb in spec["cbs"].items():
+        if cb.get("inst"):
+            L += _cb_def(cid, dict(cb, name=f"_inst_{cid}"), indent="")
+            L.append("")
     if _providers_only:
         return L
     strict = spec["opts"].get("strict")
@@ -305,8 +310,23 @@ def release_library_caches(prefixes=("vmon_", "<")):
         pass
 
 
-def provider_objects(spec, mod, cls_suffix=""):
+def attach_instance_hooks(spec, mod, objs, role):
+    import types
+
+    for cid, cb in spec["cbs"].items():
+        if cb.get("inst") == role and objs.get(cb["provider"]) is not None:
+            obj = objs[cb["provider"]]
+            setattr(obj, cb["name"], types.MethodType(getattr(mod, f"_inst_{cid}"), obj))
+
+
+def provider_objects(spec, mod, cls_suffix="", role="main"):
     """Instantiate model and listener objects of a loaded spec."""
+    objs = _provider_objects(spec, mod, cls_suffix)
+    attach_instance_hooks(spec, mod, objs, role)
+    return objs
+
+
+def _provider_objects(spec, mod, cls_suffix=""):
     uid = f"{spec['uid']}{cls_suffix}"
     objs = {}
     if spec.get("mixin"):
